@@ -8,7 +8,7 @@ import sys
 
 VERIF = os.path.dirname(os.path.dirname(os.path.abspath(__file__)))
 sys.path.insert(0, VERIF)
-from sa.engine import PROPS, load_rules  # noqa: E402
+from sa.engine import explanation, PROPS, load_rules  # noqa: E402
 
 props = {}
 for l in open(os.path.join(VERIF, 'properties.jsonl')):
@@ -31,7 +31,7 @@ for pid in PROPS:
         continue
     mod, rules = load_rules(pid)
     rule_ids = [r.rule_id for r in rules]
-    doc = ' '.join((mod.__doc__ or '').split())
+    doc = explanation(mod, rules)
     checks.append({
         'property_id': pid,
         'quick_cmd': '/venv/bin/python /verif/sa/check.py %s --tier quick' % pid,
